@@ -246,7 +246,7 @@ func init() {
 			bound := 2
 			if tier == "thorough" {
 				bound = 3
-				items = allItems("C14", c14Oracle, nil, "incr-cancel", "shutdown", "empty")
+				items = allItems("C14", c14Oracle, nil, "cancel", "shutdown", "empty")
 			}
 			for _, sp := range c14Programs(tier) {
 				b := bound
@@ -286,7 +286,7 @@ func init() {
 			}
 			if tier == "thorough" {
 				bound = 2
-				items = allItems("C16", leakOracle, nil, "incr", "incr-cancel", "shutdown", "incr-write", "two", "empty")
+				items = allItems("C16", leakOracle, nil, "incr", "cancel", "shutdown", "incr-write", "two", "empty")
 			}
 			for _, sp := range c16Programs(tier) {
 				items = append(items, specItemsMixed("C16", sp, bound, 1, allStrats, nil, leakOracle)...)
